@@ -67,13 +67,16 @@ def family_programs(ctx, quick):
         out.append((d, "plain", "security:%s" % d["api"]["name"]))
     for g in ("G1", "G2", "G3", "G4", "G5", "G6", "G7", "G8", "G9", "G10", "G11"):
         out.append((c08.design(g), "views/recursive-result-type" if g == "G4" else "plain", "views:" + g))
+    # collections whose declaration fixes the view (CollectionOf(T, func() { View("ext") }))
+    for g in ("G3vtiny", "G3vext", "G7vtiny"):
+        out.append((c08.design(g), "plain", "views:" + g))
     return out + container_programs()
 
 
 def design_class(sh):
     """Class of a method shape, from the abstract design only."""
     for a in sh["pa"] + sh["ra"]:
-        if a["loc"] in ("query", "header", "cookie") and a["nest"] == "alias" and a["mode"] == "default":
+        if a["loc"] in ("query", "header", "cookie") and a["nest"] == "alias" and hg.has_default(a):
             return "param/alias+default"
     for a in sh["pa"]:
         if a["loc"] == "header" and a["nest"] in hg.WHOLE:
@@ -166,7 +169,7 @@ def run(ctx):
         di, _, meth = where[si]
         cls = design_class(sh)
         a = (sh["pa"] + sh["ra"])
-        if any(x["loc"] != "body" or x["nest"] != "direct" or x["mode"] == "default" or x["rule"] != "none" for x in a):
+        if any(x["loc"] != "body" or x["nest"] != "direct" or hg.has_default(x) or x["rule"] != "none" for x in a):
             nontrivial.add(hg.shape_key(sh))
         ctx.cov["evaluations"] += 1
         lines.append({"ev": "prog", "class": cls, "shape": si})
